@@ -5,7 +5,11 @@
 //	{CreateSubscription, DeleteSubscriptions(t), CreateMonitoredItems(t) with one
 //	 item, CreateMonitoredItems(t) with two items in one request,
 //	 DeleteMonitoredItems(t), SetMonitoringMode(t)} x 2 sessions,
-//	 t in {own-oldest, own-newest, foreign(oldest), unknown}
+//	 t in {own-oldest, own-newest, foreign(oldest), unknown} and, for the two
+//	 monitored item services whose request names a subscription id besides the
+//	 item ids, foreign-item-own-sub (the other session's oldest item id together
+//	 with the caller's OWN oldest subscription id; the plain foreign target
+//	 names the item's real, i.e. foreign, subscription)
 //
 // on a real server. A state *is* a history; the successor of a state is
 // computed by replaying the history over the wire (two raw secure channels,
@@ -72,7 +76,7 @@ import (
 type c32Op struct {
 	S int    `json:"s"` // session 0/1
 	K string `json:"k"` // CS DS CMI CMI2 (two items in one request) DMI SMM
-	T string `json:"t"` // "", own-oldest, own-newest, foreign, unknown
+	T string `json:"t"` // "", own-oldest, own-newest, foreign, unknown, foreign-item-own-sub (DMI, SMM only)
 }
 
 func (o c32Op) String() string {
@@ -93,7 +97,14 @@ func (h c32Hist) String() string {
 }
 
 var c32Kinds = []string{"CS", "DS", "CMI", "CMI2", "DMI", "SMM"}
-var c32Targets = []string{"own-oldest", "own-newest", "foreign", "unknown"}
+var c32Targets = []string{"own-oldest", "own-newest", "foreign", "unknown", c32ForeignOwnSub}
+
+// c32ForeignOwnSub: a monitored item of the other session, named in a request
+// whose SubscriptionID is one of the caller's own subscriptions.
+const c32ForeignOwnSub = "foreign-item-own-sub"
+
+func c32Foreign(t string) bool { return t == "foreign" || t == c32ForeignOwnSub }
+
 var c32Service = map[string]string{"CS": "CreateSubscription", "DS": "DeleteSubscriptions", "CMI": "CreateMonitoredItems", "CMI2": "CreateMonitoredItems[2 items]", "DMI": "DeleteMonitoredItems", "SMM": "SetMonitoringMode"}
 
 const c32Unknown = uint32(999999)
@@ -306,6 +317,24 @@ func c32Resolve(o c32Op, sn c32Snap) (id uint32, subOf uint32, ok bool) {
 	}
 	if o.T == "unknown" {
 		return c32Unknown, c32Unknown, true
+	}
+	if o.T == c32ForeignOwnSub {
+		if o.K != "DMI" && o.K != "SMM" {
+			return 0, 0, false
+		}
+		var item, sub uint32
+		haveItem, haveSub := false, false
+		for id, it := range sn.Items {
+			if it.Owner != o.S && (!haveItem || id < item) {
+				item, haveItem = id, true
+			}
+		}
+		for id, ow := range sn.Subs {
+			if ow == o.S && (!haveSub || id < sub) {
+				sub, haveSub = id, true
+			}
+		}
+		return item, sub, haveItem && haveSub
 	}
 	var own, foreign []uint32
 	subOfItem := map[uint32]uint32{}
@@ -595,18 +624,18 @@ func c32Judge(o c32Op, id uint32, pre, post c32Snap, res c32Res) (out [][2]strin
 			}
 		}
 	}
-	if o.T == "foreign" {
+	if c32Foreign(o.T) {
 		if res.good {
-			add("foreign/reported-Good", fmt.Sprintf("session %c used id %d of the other session and was answered Good (%+v)", 'A'+o.S, id, res))
+			add(o.T+"/reported-Good", fmt.Sprintf("session %c used id %d of the other session and was answered Good (%+v)", 'A'+o.S, id, res))
 		}
 		if pre.raw() != post.raw() {
-			add("foreign/state-changed", fmt.Sprintf("session %c used id %d of the other session: %s -> %s", 'A'+o.S, id, pre.raw(), post.raw()))
+			add(o.T+"/state-changed", fmt.Sprintf("session %c used id %d of the other session: %s -> %s", 'A'+o.S, id, pre.raw(), post.raw()))
 		}
 	}
 	if o.T == "unknown" && pre.raw() != post.raw() {
 		add("unknown/state-changed", fmt.Sprintf("unknown id %d: %s -> %s", id, pre.raw(), post.raw()))
 	}
-	if o.T != "foreign" && pre.restrict(other) != post.restrict(other) {
+	if !c32Foreign(o.T) && pre.restrict(other) != post.restrict(other) {
 		add(strings.TrimSuffix("own/"+o.T, "/")+"/other-session-state-changed", fmt.Sprintf("operation of session %c changed what session %c owns: %s -> %s", 'A'+o.S, 'A'+other, pre.raw(), post.raw()))
 	}
 	return out
@@ -740,7 +769,7 @@ func c32() {
 	r.Set("complete_to_depth", completeDepth)
 	r.Set("unexpanded_states_at_bound", len(frontier))
 	r.Set("worker_processes_started", p.Started)
-	r.Rule(fmt.Sprintf("breadth-first over histories of length <= %d of {CreateSubscription, DeleteSubscriptions, CreateMonitoredItems with 1 item, CreateMonitoredItems with 2 items in one request, DeleteMonitoredItems, SetMonitoringMode} x targets {own-oldest, own-newest, foreign, unknown} x 2 sessions; states deduplicated by canonical state (live subscription ids per session + rank-renamed monitored items with subscription, owner and mode); every transition = replay of the state's representative history on a reset real server + one operation, executed directly (handler call) and over the wire; evaluations = executed transitions (direct and wire counted separately); non-trivial = a transition from a state with at least one live subscription; distinct = (canonical source state, operation)", depth))
+	r.Rule(fmt.Sprintf("breadth-first over histories of length <= %d of {CreateSubscription, DeleteSubscriptions, CreateMonitoredItems with 1 item, CreateMonitoredItems with 2 items in one request, DeleteMonitoredItems, SetMonitoringMode} x targets {own-oldest, own-newest, foreign, unknown; DeleteMonitoredItems and SetMonitoringMode also foreign-item-own-sub = the other session's item id in a request that names one of the caller's own subscription ids} x 2 sessions; states deduplicated by canonical state (live subscription ids per session + rank-renamed monitored items with subscription, owner and mode); every transition = replay of the state's representative history on a reset real server + one operation, executed directly (handler call) and over the wire; evaluations = executed transitions (direct and wire counted separately); non-trivial = a transition from a state with at least one live subscription; distinct = (canonical source state, operation)", depth))
 	r.Assume("the ticker of every subscription is set to one hour so that no subscription expires during the check", "reset server == new server for these services (argued in c32.go, and tested for every state of depth <= 2)", "effects of a step are collected at a quiescence barrier (all server goroutines parked), not after a delay")
 	r.Finish()
 }
